@@ -276,7 +276,13 @@ fn un_xorshift(y: u64, s: u32) -> u64 {
 /// seed space ("for every seed"); the lanes verify it against graaf's public
 /// PRNG before relying on it.
 pub fn seed_with_first_draw_zero(k: u64) -> u64 {
-    let out = (k & 0xFFF) << 52;
+    seed_with_first_draw(0, k)
+}
+
+/// The same inversion for any value of the 52 mantissa bits of the first draw: `low52 = 2^52 - 1` is
+/// the *largest* value `next_f64()` can take (1 - 2^-52), `2^51` is exactly 0.5.
+pub fn seed_with_first_draw(low52: u64, k: u64) -> u64 {
+    let out = ((k & 0xFFF) << 52) | (low52 & ((1 << 52) - 1));
     // xoshiro256**: out = rotl(s1 * 5, 7) * 9, s1 = second SplitMix64 output
     let s1 = out.wrapping_mul(inv_mul(9)).rotate_right(7).wrapping_mul(inv_mul(5));
     // SplitMix64 output function inverted
